@@ -783,7 +783,9 @@ class Gen(object):
                         "unsigned long long": 64}[base.name]
                 k = r.randint(1, 3)
                 for j in range(k):
-                    fields.append(Field(self.name("m"), base, bits=r.randint(1, maxw)))
+                    # never the full width of the declared type: clang then describes the member as a plain
+                    # (byte-addressed) member, which is wrong when it sits at an unaligned bit position
+                    fields.append(Field(self.name("m"), base, bits=r.randint(1, maxw - 1)))
                 if r.random() < 0.15:
                     fields.append(Field(None, base, bits=0))
             elif x < 0.25 and self.o.anon_members and depth < 2:
